@@ -3,6 +3,8 @@ package raftkvs
 import (
 	"fmt"
 
+	"github.com/DistCompiler/pgo/distsys/trace"
+
 	ss "verif/mc/specstep"
 )
 
@@ -86,4 +88,47 @@ func (c Config) Others(leader int) []int {
 		}
 	}
 	return o
+}
+
+// Build constructs the system and moves its search start along the named seeding script:
+//   ""                the initial state
+//   "elect"           server 1 won the first election
+//   "commit-lagging"  + client 1's first request committed on a bare majority that excludes the
+//                     highest-numbered servers (their AppendEntries is still in flight)
+//   "commit2-lagging-crash" = commit2-lagging, then server 1 (the leader) crash-stops
+//   "commit2-lagging" + first request replicated everywhere and answered, second request committed
+//                     on a bare majority (client 1 needs a script of >= 2 requests)
+// observe (may be nil) is installed before seeding so that the observer component covers the prefix.
+func Build(cfg Config, seed string, observe func(pre *ss.State, p int, ev *trace.Event, post *ss.State) string) (*ss.System, error) {
+	sys := New(cfg)
+	sys.Observe = observe
+	majority := func() []int {
+		var acks []int
+		for j := 2; j <= cfg.NumServers/2+1; j++ {
+			acks = append(acks, j)
+		}
+		return acks
+	}
+	var scripts [][]ss.SeedStep
+	switch seed {
+	case "":
+	case "elect":
+		scripts = [][]ss.SeedStep{cfg.SeedElect(1)}
+	case "commit-lagging":
+		scripts = [][]ss.SeedStep{cfg.SeedElect(1), cfg.SeedReplicate(1, 1, majority())}
+	case "commit2-lagging":
+		scripts = [][]ss.SeedStep{cfg.SeedElect(1), cfg.SeedReplicate(1, 1, cfg.Others(1)), cfg.SeedClientRecv(1), cfg.SeedReplicate(1, 1, majority())}
+	case "commit2-lagging-crash":
+		// ... and then the leader crash-stops (needs ExploreFail): the survivors must elect among themselves
+		scripts = [][]ss.SeedStep{cfg.SeedElect(1), cfg.SeedReplicate(1, 1, cfg.Others(1)), cfg.SeedClientRecv(1), cfg.SeedReplicate(1, 1, majority()),
+			rep(2, fmt.Sprintf("crasher(%d)", 5*cfg.NumServers+1))}
+	default:
+		return nil, fmt.Errorf("unknown seed %q", seed)
+	}
+	for _, sc := range scripts {
+		if err := sys.Seed(sc); err != nil {
+			return nil, err
+		}
+	}
+	return sys, nil
 }
